@@ -82,6 +82,14 @@ ABUT = [     # quoted arguments followed by further arguments: CMake accepts the
     {"k": "cpp_class", "doc": 1}, {"k": "cpp_attr", "doc": 1, "default": '"dv"'},
 ]
 
+UNDOC_THEN_DOC = [     # undocumented commands directly followed by documented ones (a doccomment may start on the line the
+    {"k": "set", "doc": 0, "values": ["1"]}, {"k": "set", "doc": 1, "values": ["2"]},       # previous command ends on)
+    {"k": "option", "doc": 0}, {"k": "option", "doc": 1},
+    {"k": "generic", "doc": 0}, {"k": "function", "doc": 1, "params": ["a"]}, {"k": "set", "doc": 0, "values": ["x", "y"]},
+    {"k": "set", "doc": 1, "values": ["z"]}, {"k": "close"},
+    {"k": "set", "doc": 0, "values": []}, {"k": "generic", "doc": 1},
+]
+
 EMPTYDOCS = [     # doccomments without any text, judged under include_undocumented_* all off as well
     {"k": "function", "doc": 1, "params": ["a"], "doctext": []}, {"k": "close"},
     {"k": "macro", "doc": 1, "params": [], "doctext": [""]}, {"k": "close"},
@@ -295,6 +303,8 @@ def run(ctx):
     jobs += [(MULTILINE, "full", p, 4, (("cmd_indent", "        "),)) for p in range(4)]
     jobs += [(MULTILINE, "full", p, 4) for p in range(4)]
     jobs += [(ABUT, "full", p, 4) for p in range(4)]
+    jobs += [(UNDOC_THEN_DOC, "full", p, 8) for p in range(8)]
+    jobs += [([], "full"), ([{"k": "comment", "shape": 0}], "full"), ([{"k": "set", "doc": 0}], "full")]      # modules without any entry
     jobs += [(EMPTYDOCS, "full", p, 8, (), cfg) for p in range(8) for cfg in (None, ALL_OFF, ALL_OFF[:2])]
     validate_abutting()
     for h in hs:
